@@ -249,6 +249,9 @@ fn converged(w: &World, r: &rp::RpResult) -> Vec<(String, String)> {
                                     c.ski.eq_ignore_ascii_case(&k.1)
                                 });
                                 match published {
+                                    // (a parent that is itself cut off from
+                                    // the TA cannot have valid children)
+                                    None if c01::rc_cut_off(w, &pname, Some(prcn), 0) => {}
                                     None => v.push((
                                         "not-published".into(),
                                         format!("the certificate {cname} holds under {pname}/{prcn} is not a valid published certificate"),
